@@ -59,8 +59,9 @@ VARIABLES nb,         \* number of blocks created
           pool,       \* the mempool
           known,      \* transactions in the wallet
           aband,      \* of those, the abandoned ones
+          wv, proj,   \* the wallet view WV and what the adapter compares (functions of the other variables, computed once per state)
           nsteps, lastAct, lastRes
-vars == <<nb, parent, btxs, cbm, span, invalid, tip, pool, known, aband, nsteps, lastAct, lastRes>>
+vars == <<nb, parent, btxs, cbm, span, invalid, tip, pool, known, aband, wv, proj, nsteps, lastAct, lastRes>>
 
 \* ------------------------------------------------------------------------------------------------------------ chain
 RECURSIVE ChainTo(_, _)
@@ -167,6 +168,12 @@ WV(W) ==
       lingering |-> {t \in inactive : t \notin W.A /\ t \notin pconf /\ ~IsCb(t)}]
 Balances(W) == WV(W).bal
 Avail(W) == WV(W).avail
+OpStr(o) == o[1] \o ":" \o ToString(o[2])
+\* the universe travels with the initial state so that the adapter builds exactly these transactions
+UniJson == [t \in Tx |-> [ins |-> TxDef[t].ins, outs |-> TxDef[t].outs]]
+ProjOf(W, v, first) ==
+        [chain |-> W.ch, pool |-> W.P, bal |-> v.bal, coins |-> {OpStr(o) : o \in v.avail},
+         known |-> W.K, aband |-> W.A, conflicted |-> v.bconf, uni |-> IF first THEN UniJson ELSE <<>>]
 
 \* ------------------------------------------------------------------------------------------------------------ state
 Cur == [bt |-> btxs, cm |-> cbm, sp |-> span, ch |-> ChainTo(parent, tip), P |-> pool, K |-> known, A |-> aband]
@@ -181,19 +188,31 @@ KeepAband(W, A) == LET v == WV(W) IN {t \in A : t \notin v.conf /\ t \notin W.P 
 Init == /\ nb = 0 /\ parent = [b \in BlockIds |-> 0] /\ btxs = [b \in BlockIds |-> <<>>] /\ cbm = [b \in BlockIds |-> FALSE]
         /\ span = [b \in BlockIds |-> 1] /\ invalid = {} /\ tip = 0 /\ pool = {} /\ known = {} /\ aband = {}
         /\ nsteps = 0 /\ lastAct = <<"init">> /\ lastRes = "ok"
+        /\ LET W0 == [bt |-> [b \in BlockIds |-> <<>>], cm |-> [b \in BlockIds |-> FALSE], sp |-> [b \in BlockIds |-> 1], ch |-> <<>>, P |-> {}, K |-> {}, A |-> {}] IN
+           wv = WV(W0) /\ proj = ProjOf(W0, wv, TRUE)
 
 Step == nsteps < MaxSteps /\ nsteps' = nsteps + 1 /\ lastRes' = "ok"
 \* a transaction reaches the mempool (sent by the wallet itself - commit, then broadcast - or relayed by someone else)
 Submit(t, viawallet) ==
   LET W == Cur X == ChainTxs(btxs, W.ch) IN
   /\ Step /\ t \in Tx /\ t \notin pool /\ t \notin X /\ Joinable(t, X, pool)
-  /\ (viawallet => /\ \E o \in Ins(t) : o[1] \in known /\ MineOut(W, o)
+  /\ (viawallet => /\ t \notin known                                 \* the wallet commits transactions it has just created
+                   /\ \E o \in Ins(t) : o[1] \in known /\ MineOut(W, o)
                    /\ \A o \in Ins(t) : o[1] \in known)             \* CWallet::CommitTransaction looks every input's transaction up in the wallet
   /\ pool' = pool \cup {t}
   /\ known' = Learn(cbm, known, <<t>>)
   /\ aband' = aband \ {t}
+  /\ LET W2 == [W EXCEPT !.P = pool \cup {t}, !.K = Learn(cbm, known, <<t>>), !.A = aband \ {t}] IN wv' = WV(W2) /\ proj' = ProjOf(W2, wv', FALSE)
   /\ lastAct' = <<(IF viawallet THEN "send" ELSE "submit"), t>>
   /\ UNCHANGED <<nb, parent, btxs, cbm, span, invalid, tip>>
+\* the mempool drops a transaction and what depends on it (expiry, size limit): known wallet transactions become inactive
+Evict(t) ==
+  LET W == Cur P2 == pool \ Descendants(pool, {t}) IN
+  /\ Step /\ t \in pool
+  /\ pool' = P2
+  /\ LET W2 == [W EXCEPT !.P = P2] IN wv' = WV(W2) /\ proj' = ProjOf(W2, wv', FALSE)
+  /\ lastAct' = <<"evict", t>>
+  /\ UNCHANGED <<nb, parent, btxs, cbm, span, invalid, tip, known, aband>>
 \* sequences of transactions a block on the tip may contain: nothing, the whole mempool, or a single transaction (in the mempool or
 \* not) - a single one that conflicts with the mempool is how a competing spend gets confirmed
 RECURSIVE Topo(_, _, _)
@@ -211,6 +230,7 @@ Mine(S, mine, bulk) ==
      /\ (bulk => (S = <<>> /\ ~mine /\ Cardinality({x \in 1..nb : span[x] = 100}) < MaxBulk))
      /\ nb' = b /\ parent' = [parent EXCEPT ![b] = tip] /\ btxs' = bt2 /\ cbm' = cm2 /\ span' = sp2 /\ tip' = b
      /\ pool' = P2 /\ known' = K2 /\ aband' = KeepAband(W2, aband)
+     /\ LET W3 == [W2 EXCEPT !.A = KeepAband(W2, aband)] IN wv' = WV(W3) /\ proj' = ProjOf(W3, wv', FALSE)
      /\ lastAct' = <<"mine", b, tip, S, mine, bulk>>
      /\ UNCHANGED invalid
 \* the best valid tip: greatest height among blocks without an invalid ancestor (or self); the action is disabled on ties
@@ -227,6 +247,7 @@ SwitchTo(newtip, inv, act, stop) ==        \* stop: the block InvalidateBlock di
       K2 == Learn(cbm, known, conn)
       W2 == [bt |-> btxs, cm |-> cbm, sp |-> span, ch |-> newch, P |-> P2, K |-> K2, A |-> aband]
   IN /\ tip' = newtip /\ invalid' = inv /\ pool' = P2 /\ known' = K2 /\ aband' = KeepAband(W2, aband)
+     /\ LET W3 == [W2 EXCEPT !.A = KeepAband(W2, aband)] IN wv' = WV(W3) /\ proj' = ProjOf(W3, wv', FALSE)
      /\ lastAct' = act
      /\ UNCHANGED <<nb, parent, btxs, cbm, span>>
 Invalidate(b) == /\ Step /\ invalid = {} /\ b \in ToSet(ChainTo(parent, tip)) /\ UniqueBest({b})
@@ -237,9 +258,10 @@ Reconsider(b) == /\ Step /\ b \in invalid /\ UniqueBest({})
 RECURSIVE AbandonSet(_, _, _)
 AbandonSet(W, inact, S) == LET kids == {u \in W.K \ S : (\E o \in Ins(u) : o[1] \in S) /\ u \in inact /\ u \notin W.A} IN
                            IF kids = {} THEN S ELSE AbandonSet(W, inact, S \cup kids)
-Abandon(t) == LET W == Cur inact == WV(W).inactive IN
+Abandon(t) == LET W == Cur inact == wv.inactive IN
               /\ Step /\ t \in known /\ ~IsCb(t) /\ t \in inact /\ t \notin aband
               /\ aband' = aband \cup AbandonSet(W, inact, {t})
+              /\ LET W2 == [W EXCEPT !.A = aband \cup AbandonSet(W, inact, {t})] IN wv' = WV(W2) /\ proj' = ProjOf(W2, wv', FALSE)
               /\ lastAct' = <<"abandon", t>>
               /\ UNCHANGED <<nb, parent, btxs, cbm, span, invalid, tip, pool, known>>
 Next == \/ \E t \in Tx, w \in BOOLEAN : Submit(t, w)
@@ -247,21 +269,22 @@ Next == \/ \E t \in Tx, w \in BOOLEAN : Submit(t, w)
         \/ Mine(<<>>, FALSE, TRUE)
         \/ \E b \in 1..nb : Invalidate(b) \/ Reconsider(b)
         \/ \E t \in Tx : Abandon(t)
+        \/ \E t \in Tx : Evict(t)
 
 \* ------------------------------------------------------------------------------------------------------------ the property
 \* the balances never count more than chain + mempool justify, and exactly that unless the wallet still honours the spends of an
 \* inactive transaction of its own (which abandoning it ends)
-MatchesChainAndPool == LET v == WV(Cur) total == v.bal.trusted + v.bal.pending + v.bal.immature IN
+MatchesChainAndPool == LET v == wv total == v.bal.trusted + v.bal.pending + v.bal.immature IN
   /\ total <= v.direct
   /\ (v.lingering = {} => total = v.direct)
 \* nothing of a transaction conflicted by the chain is counted, and what it spent is available again
-ConflictedNotCounted == LET W == Cur v == WV(W) IN
+ConflictedNotCounted == LET v == wv IN
   \A t \in v.bconf :
       /\ \A o \in v.txos : o[1] = t => v.bucket[o] = "none"
       /\ \A o \in Ins(t) : (o \in v.txos /\ o[1] \in v.conf /\ o[1] \notin v.immature /\ \A u \in known : (o \in Ins(u) => u \in v.bconf))
                              => v.bucket[o] = "trusted"
 \* the spendable coins are exactly the outputs counted as trusted
-AvailIsTrusted == LET v == WV(Cur) IN v.avail = {o \in v.txos : v.bucket[o] = "trusted"}
+AvailIsTrusted == LET v == wv IN v.avail = {o \in v.txos : v.bucket[o] = "trusted"}
 \* sanity of the node model: the mempool is consistent with the chain
 PoolConsistent == LET W == Cur X == ChainTxs(btxs, W.ch) IN
   /\ pool \cap X = {}
@@ -269,16 +292,9 @@ PoolConsistent == LET W == Cur X == ChainTxs(btxs, W.ch) IN
 TypeOK == /\ nb \in 0..MaxBlocks /\ tip \in 0..nb /\ pool \subseteq Tx /\ known \subseteq (Tx \cup CbIds) /\ aband \subseteq known /\ Cardinality(invalid) <= 1
 
 \* ------------------------------------------------------------------------------------------------------------ projection
-OpStr(o) == o[1] \o ":" \o ToString(o[2])
-\* the universe travels with the initial state so that the adapter builds exactly these transactions
-UniJson == [t \in Tx |-> [ins |-> TxDef[t].ins, outs |-> TxDef[t].outs]]
-Proj == LET W == Cur v == WV(W) IN
-        [chain |-> W.ch, pool |-> pool, bal |-> v.bal, coins |-> {OpStr(o) : o \in v.avail},
-         known |-> known, aband |-> aband, conflicted |-> v.bconf,
-         uni |-> IF nsteps = 0 THEN UniJson ELSE <<>>]
 View == <<nb, parent, btxs, cbm, span, invalid, tip, pool, known, aband>>
 VF == INSTANCE VF
-Emit == VF!VFEdgeK(View, Proj, lastAct', lastRes', View', Proj')
-\* for simulation: the source projection is only needed for the initial state
-EmitSim == VF!VFEdgeK(View, (IF nsteps = 0 THEN Proj ELSE <<>>), lastAct', lastRes', View', Proj')
+Emit == VF!VFEdgeK(View, proj, lastAct', lastRes', View', proj')
+\* the projection variable is what its definition says (checked in the model-checking runs)
+ProjOK == wv = WV(Cur) /\ proj = ProjOf(Cur, wv, nsteps = 0)
 ====
